@@ -15,7 +15,7 @@ use std::collections::{BTreeMap, HashMap, HashSet};
 use std::hash::{Hash, Hasher};
 use std::panic::{catch_unwind, resume_unwind, AssertUnwindSafe};
 use std::sync::atomic::{AtomicBool, AtomicU64, AtomicUsize, Ordering};
-use std::sync::Mutex;
+use std::sync::{Mutex, OnceLock};
 use std::time::{Duration, Instant};
 
 /// Payload used for failures of the machinery itself (never a verdict).
@@ -763,3 +763,85 @@ pub fn key128(bytes: &[u8]) -> u128 {
 
 /// Keep results keyed for optional differential oracles across executions.
 pub type SharedMap<K, V> = Mutex<HashMap<K, V>>;
+
+// ---------------------------------------------------------------------------------------------
+// Non-termination watchdog: a call that does not return cannot be judged by the code after it.
+// A worker announces a call (site + input) in its slot before making it; a watchdog thread looks
+// at the slots and, when one call has been running for longer than the limit, writes a replay
+// file, prints the VIOLATION line and ends the process with exit code 1.
+
+pub struct WatchSlot {
+    started_ms: AtomicU64,
+    info: Mutex<(String, String, Vec<u8>)>,
+}
+static WATCH_SLOTS: OnceLock<Vec<WatchSlot>> = OnceLock::new();
+static WATCH_NEXT: AtomicUsize = AtomicUsize::new(0);
+static WATCH_EPOCH: OnceLock<Instant> = OnceLock::new();
+thread_local! {
+    static WATCH_MY_SLOT: std::cell::Cell<usize> = std::cell::Cell::new(usize::MAX);
+}
+pub const WATCH_LIMIT_MS: u64 = 20_000;
+
+fn watch_slots() -> &'static Vec<WatchSlot> {
+    WATCH_SLOTS.get_or_init(|| {
+        WATCH_EPOCH.get_or_init(Instant::now);
+        let v: Vec<WatchSlot> = (0..256).map(|_| WatchSlot { started_ms: AtomicU64::new(0), info: Mutex::new((String::new(), String::new(), Vec::new())) }).collect();
+        std::thread::Builder::new()
+            .name("watchdog".into())
+            .spawn(|| loop {
+                std::thread::sleep(std::time::Duration::from_millis(250));
+                let now = WATCH_EPOCH.get().unwrap().elapsed().as_millis() as u64;
+                if let Some(slots) = WATCH_SLOTS.get() {
+                    for s in slots.iter() {
+                        let st = s.started_ms.load(Ordering::Relaxed);
+                        if st != 0 && now.saturating_sub(st) > WATCH_LIMIT_MS {
+                            let (prop, site, input) = s.info.lock().map(|g| g.clone()).unwrap_or_default();
+                            let sig = format!("{}/does-not-return-within-{}s/{}", prop, WATCH_LIMIT_MS / 1000, site);
+                            let vdir = crate::report::verif_dir();
+                            let path = format!("{}/replays/{}-{:016x}.json", vdir, prop, hash64(sig.as_str()));
+                            let _ = std::fs::create_dir_all(format!("{}/replays", vdir));
+                            let doc = serde_json::json!({"property": prop, "signature": sig, "site": site, "input_hex": hex::encode(&input), "note": "the call was still running when the watchdog looked; replay by feeding input_hex to the named entry point"});
+                            let _ = std::fs::write(&path, serde_json::to_string_pretty(&doc).unwrap());
+                            println!("VIOLATION property={} replay={}", prop, path);
+                            eprintln!("  signature: {}", sig);
+                            eprintln!("  detail: {} had not returned after {} s on a {}-byte input {}", site, WATCH_LIMIT_MS / 1000, input.len(), hex::encode(&input[..input.len().min(120)]));
+                            std::process::exit(1);
+                        }
+                    }
+                }
+            })
+            .expect("watchdog thread");
+        v
+    })
+}
+
+pub struct WatchGuard(usize);
+impl Drop for WatchGuard {
+    fn drop(&mut self) {
+        watch_slots()[self.0].started_ms.store(0, Ordering::Relaxed);
+    }
+}
+
+/// Announce a call that must return; the guard clears the announcement when dropped.
+pub fn watch_begin(prop: &str, site: &str, input: &[u8]) -> WatchGuard {
+    let slots = watch_slots();
+    let i = WATCH_MY_SLOT.with(|c| {
+        if c.get() == usize::MAX {
+            c.set(WATCH_NEXT.fetch_add(1, Ordering::Relaxed) % slots.len());
+        }
+        c.get()
+    });
+    if let Ok(mut g) = slots[i].info.lock() {
+        if g.0 != prop {
+            g.0 = prop.to_string();
+        }
+        if g.1 != site {
+            g.1 = site.to_string();
+        }
+        g.2.clear();
+        g.2.extend_from_slice(input);
+    }
+    let now = WATCH_EPOCH.get().unwrap().elapsed().as_millis() as u64;
+    slots[i].started_ms.store(now.max(1), Ordering::Relaxed);
+    WatchGuard(i)
+}
